@@ -2115,12 +2115,13 @@ f_objects (void)
   int display_hidden = 0, t_sz, i, j, num_arg = st_num_arg;
   svalue_t *v;
 
+  /* objects(void | string | function, void | object): the filter is the FIRST argument */
   if (!num_arg)
     func = 0;
-  else if (sp->type == T_FUNCTION)
-    f = sp->u.fp;
+  else if ((sp - num_arg + 1)->type == T_FUNCTION)
+    f = (sp - num_arg + 1)->u.fp;
   else
-    func = sp->u.string;
+    func = (sp - num_arg + 1)->u.string;
 
   if (!(tmp = (object_t **) new_string ((t_sz = 1000) * sizeof (object_t *),
                                         "TMP: objects: tmp")))
@@ -2145,8 +2146,8 @@ f_objects (void)
             {
               FREE_MSTR ((char *) tmp);
               sp--;
-              free_svalue (sp, "f_objects");
-              *sp = const0;
+              pop_n_elems (num_arg);
+              push_number (0);
               return;
             }
           if (v->type == T_NUMBER && !v->u.number)
@@ -2155,13 +2156,13 @@ f_objects (void)
       else if (func)
         {
           push_object (ob);
-          v = apply (func, current_object, 1, ORIGIN_EFUN);
+          v = apply (func, (num_arg == 2) ? (sp - 2)->u.ob : current_object, 1, ORIGIN_EFUN);
           if (!v)
             {
               FREE_MSTR ((char *) tmp);
               sp--;
-              free_svalue (sp, "f_objects");
-              *sp = const0;
+              pop_n_elems (num_arg);
+              push_number (0);
               return;
             }
           if ((v->type == T_NUMBER) && !v->u.number)
